@@ -15,6 +15,8 @@ search     : harness/c06_reset.c (reused vs fresh: return codes, PCM bytes, fram
 import hashlib
 import os
 import re
+import shutil
+import struct
 import sys
 
 import vlib
@@ -366,6 +368,112 @@ def check_restart_sweep(ck, exe, mods, fields, configs):
     ck.note("sweep_members_changed_by_playing", sorted(played_seen))
 
 
+def it_has_compressed_samples(path):
+    """IT module with at least one sample stored with IT214/215 compression (sample flag 0x08)"""
+    try:
+        d = open(path, "rb").read()
+        if d[:4] != b"IMPM":
+            return False
+        ordn, insn, smpn = struct.unpack("<3H", d[0x20:0x26])
+        off = 0xc0 + ordn + insn * 4
+        for i in range(smpn):
+            so = struct.unpack("<I", d[off + 4 * i:off + 4 * i + 4])[0]
+            if d[so:so + 4] == b"IMPS" and d[so + 0x12] & 8 and d[so + 0x12] & 1:
+                return True
+    except (OSError, struct.error, IndexError):
+        pass
+    return False
+
+
+def damaged_variants(ck, mods, nbase, per):
+    """Damaged copies of pool modules (truncated inside the sample/pattern data, a few bytes corrupted), written to
+    out/c06-damaged; modules with compressed samples first (their decoders consume an explicit bit stream)."""
+    ddir = os.path.join(vlib.OUT, "c06-damaged")
+    shutil.rmtree(ddir, ignore_errors=True)
+    os.makedirs(ddir, exist_ok=True)
+    cand = [f for f in mods if 300 < os.path.getsize(f) < 200000]
+    packed = [f for f in cand if it_has_compressed_samples(f)]
+    extra = [f for f in openmpt_files() + vlib.corpus_files()
+             if f not in cand and f.lower().endswith(".it") and " " not in f and "/data/f/" not in f
+             and 300 < os.path.getsize(f) < 200000 and it_has_compressed_samples(f)]
+    ck.rng.shuffle(extra)
+    rest = [f for f in cand if f not in packed]
+    ck.rng.shuffle(rest)
+    base = (packed + extra)[:max(1, (2 * nbase) // 3)]
+    base += rest[:nbase - len(base)]
+    out = []
+    for f in base:
+        d = open(f, "rb").read()
+        stem, ext = os.path.splitext(os.path.basename(f))
+        for k in range(per):
+            b = bytearray(d)
+            if k % 2 == 0:
+                cut = ck.rng.randrange(int(len(b) * 0.35), len(b) - 1)
+                b = b[:cut]
+                name = "%s.t%d%s" % (stem, cut, ext)
+            else:
+                pos = []
+                for _ in range(ck.rng.randrange(1, 4)):
+                    q = ck.rng.randrange(int(len(b) * 0.3), len(b))
+                    b[q] = ck.rng.randrange(256)
+                    pos.append(q)
+                name = "%s.c%s%s" % (stem, "_".join(str(q) for q in pos), ext)
+            path = os.path.join(ddir, name)
+            open(path, "wb").write(bytes(b))
+            out.append(path)
+    ck.note("damaged_base_modules", len(base))
+    ck.note("damaged_base_with_compressed_samples", sum(1 for f in base if it_has_compressed_samples(f)))
+    return out
+
+
+HEAP_FILLS = (0, 165)
+
+
+def check_heapfill(ck, exe, mods):
+    """Every module (intact and damaged) is loaded, rendered, released and loaded again in two processes whose
+    allocator fills fresh memory differently: what the context holds and renders must not depend on it."""
+    def one(m):
+        res = []
+        for fill in HEAP_FILLS:
+            env = {"ASAN_OPTIONS": "detect_leaks=0:abort_on_error=0:allocator_may_return_null=1:"
+                                   "max_malloc_fill_size=268435456:malloc_fill_byte=%d" % fill}
+            rc, out, err = vlib.run_exe(exe, ["--digest", m], timeout=300, env=env)
+            res.append((rc, out.decode("latin-1"), err))
+        return m, res
+    st = {"modules": 0, "loaded": 0, "rendered_frames": 0, "aborted": 0}
+    good = []
+    for m, res in vlib.pmap(one, mods):
+        st["modules"] += 1
+        if any(rc != 0 for rc, _, _ in res):
+            rc, out, err = [r for r in res if r[0] != 0][0]
+            sig = vlib.sanitizer_signature(err)
+            st["aborted"] += 1
+            ck.violation("harness-abort:" + sig, {"harness": "c06_reset", "digest": [m], "stderr": err[-3000:]},
+                         "c06_reset --digest aborted on %s (rc=%d): %s" % (os.path.basename(m), rc, sig))
+            continue
+        a, b = res[0][1].splitlines(), res[1][1].splitlines()
+        digs = [l.split() for l in a if l.startswith("dig ")]
+        if any(d[3] == "0" for d in digs):
+            st["loaded"] += 1
+        st["rendered_frames"] += sum(int(d[7]) for d in digs)
+        ck.count("heapfill:" + vlib.hashlib.sha256(open(m, "rb").read()).hexdigest()[:16],
+                 nontrivial=any(d[3] == "0" and int(d[7]) > 0 for d in digs))
+        if a != b:
+            bad = [(x, y) for x, y in zip(a, b) if x != y][:2]
+            ck.violation("uninit-heap:" + os.path.basename(m),
+                         {"harness": "c06_reset", "digest": [m], "fills": list(HEAP_FILLS),
+                          "module_hex": open(m, "rb").read().hex() if os.path.getsize(m) < 250000 else None,
+                          "lines": [list(x) for x in bad]},
+                         "what a context holds/renders depends on uninitialised heap contents "
+                         "(malloc fill %d vs %d): %s | %s" % (HEAP_FILLS[0], HEAP_FILLS[1], bad[0][0][:150], bad[0][1][:150]))
+        elif any(d[3] == "0" for d in digs):
+            good.append(m)
+            ck.cov["traces_validated_against_impl"] += 1
+    for k, v in st.items():
+        ck.note("heapfill_" + k, v)
+    return good
+
+
 def check_regressions(ck, exe):
     n = 0
     for sig, what, mk in REGRESSIONS:
@@ -453,6 +561,10 @@ def check_isolation(ck, exe, mods, ncases, maxenum, nthreads, nshards, variant="
         ck.note("iso_%s_%s" % (variant, k), v)
 
 
+def sweep_mods_all(mods):
+    return mods + [f for f in openmpt_files() if f not in mods and os.path.getsize(f) < 300000]
+
+
 def run(ck):
     quick = ck.tier == "quick"
     fields = gen_ctx_fields.generate()
@@ -467,7 +579,15 @@ def run(ck):
     ex_reset = build("c06_reset")
     ex_iso = build("c06_isolation")
     check_regressions(ck, ex_reset)
-    sweep_mods = mods + [f for f in openmpt_files() if f not in mods and os.path.getsize(f) < 300000]
+    # damaged inputs + allocator-content independence; damaged files that load cleanly also join the pool below
+    damaged = damaged_variants(ck, mods, 24 if quick else 90, 3 if quick else 6)
+    ck.note("damaged_variants", len(damaged))
+    usable = check_heapfill(ck, ex_reset, sweep_mods_all(mods) + damaged)
+    dmg_ok = [f for f in damaged if f in usable]
+    ck.rng.shuffle(dmg_ok)
+    mods = mods + dmg_ok[:12 if quick else 60]
+    ck.note("damaged_in_pool", min(len(dmg_ok), 12 if quick else 60))
+    sweep_mods = sweep_mods_all(mods)
     ck.note("sweep_modules", len(sweep_mods))
     check_restart_sweep(ck, ex_reset, sweep_mods, fields,
                         [("22050 4 0", 150, 44100, 0)] if quick else
@@ -480,9 +600,11 @@ def run(ck):
     ck.cov["rule"] = ("cases generated from VERIF_SEED: (a) op = one modelled operation on a context with a random API history, complete "
                       "image before/after vs the model; (b) hist = module x rate x format x random prior history (load/start/play/control/"
                       "release cycles) x control script, reused vs fresh context: whole image + every return code/PCM byte/frame info; "
-                      "(c) iso = two call scripts on two contexts: solo vs interleavings vs reused vs threads. Distinct by hash of the "
-                      "case text; non-trivial = (a) always, (b) the history actually played frames and the target played frames, "
-                      "(c) the observed context produced non-silent PCM")
+                      "(c) iso = two call scripts on two contexts: solo vs interleavings vs reused vs threads; (d) heapfill = every pool "
+                      "module, intact and damaged (truncated / corrupted copies), loaded+rendered+released+reloaded in two processes "
+                      "with different malloc fill bytes; (e) sweep = second player run on every module. Distinct by hash of the "
+                      "case text / file; non-trivial = (a) always, (b,e) the history or earlier run actually played frames and the target "
+                      "played frames, (c) the observed context produced non-silent PCM, (d) the module loaded and rendered frames")
     ck.assumptions += [
         "format loaders read, besides the input bytes, only the persistent settings (smpctl, defpan, instrument path, ...) and members "
         "libxmp_load_prologue has reset; quirk code, the scan and xmp_start_player read only the loaded module and persistent settings",
@@ -503,6 +625,22 @@ def replay(ck, rp):
     hname = r.get("harness", "c06_reset")
     variant = r.get("variant", "asan")
     exe = build(hname, variant)
+    if r.get("digest"):
+        m = r["digest"][0]
+        if not os.path.exists(m) and r.get("module_hex"):
+            os.makedirs(os.path.dirname(m), exist_ok=True)
+            open(m, "wb").write(bytes.fromhex(r["module_hex"]))
+        outs = []
+        for fill in r.get("fills", HEAP_FILLS):
+            env = {"ASAN_OPTIONS": "detect_leaks=0:abort_on_error=0:allocator_may_return_null=1:"
+                                   "max_malloc_fill_size=268435456:malloc_fill_byte=%d" % fill}
+            rc, out, err = vlib.run_exe(exe, ["--digest", m], timeout=300, env=env)
+            print("malloc_fill_byte=%d rc=%d\n%s%s" % (fill, rc, out.decode("latin-1"), err[-1500:]))
+            outs.append((rc, out))
+        bad = any(rc != 0 for rc, _ in outs) or len({o for _, o in outs}) > 1
+        if bad:
+            print("VIOLATION property=C06 replay=%s signature=%s" % (m, rp.get("signature", "?")))
+        return 1 if bad else 0
     script = r.get("script")
     path = "(argv) " + " ".join(str(x) for x in r.get("argv", []))
     if not script:
